@@ -93,7 +93,10 @@ class MatlabDefCompiler:
         return name
 
     def generate_field(self, top_field: str, name: str, value: Any) -> str:
-        name = name.replace(f"{top_field}_", "", 1)  # strip top_field from fieldname
+        # strip a leading top_field prefix from the fieldname
+        prefix = f"{top_field}_"
+        if name.startswith(prefix):
+            name = name[len(prefix) :]
         name = self.sanitize_name(name)
         return f"{self.struct_name}.{top_field}.{name} = {value};\n"
 
